@@ -600,9 +600,10 @@ Proof.
   unfold step. apply pres_bind; [|apply pres_finish].
   destruct o; simpl;
     unfold op_snap_cached, op_snap_fresh, op_coll_get, op_child_snap, op_store_snap, op_prev,
-           op_iter_start, op_iter_seek, op_iter_start_o, op_iter_seek_o, op_close_h, op_batch, op_drop_children, op_merger_ingest,
+           op_iter_start, op_iter_seek, op_iter_start_pre_fix, op_iter_seek_pre_fix, op_close_h, op_batch, op_drop_children, op_merger_ingest,
            op_merger_swap, op_merger_handover, op_persist_begin, op_persist_run,
-           op_persist_publish, op_coll_close, op_store_close, coll_close_body, store_close_body;
+           op_persist_publish, op_coll_close, op_store_close, coll_close_body, store_close_body,
+           compact_full;
     pres_all.
 Qed.
 
@@ -884,10 +885,10 @@ Ltac sat_go HP prim := repeat (sat_step HP prim).
 Ltac unfold_ops :=
   unfold step; simpl body;
   unfold op_snap_cached, op_snap_fresh, op_coll_get, op_child_snap, op_store_snap, op_prev,
-         op_iter_start, op_iter_seek, op_iter_start_o, op_iter_seek_o, op_close_h, op_batch, op_drop_children, op_merger_ingest,
+         op_iter_start, op_iter_seek, op_iter_start_pre_fix, op_iter_seek_pre_fix, op_close_h, op_batch, op_drop_children, op_merger_ingest,
          op_merger_swap, op_merger_handover, op_persist_begin, op_persist_run,
          op_persist_publish, op_coll_close, op_store_close,
-         coll_close_body, store_close_body, invalidate, close_slot, start_or_reuse, newfile.
+         coll_close_body, store_close_body, invalidate, close_slot, compact_full, start_or_reuse, newfile.
 
 (* taking a primitive apart *)
 Ltac prim_inv H :=
@@ -986,8 +987,8 @@ Ltac fr_prim :=
 (* the operations on handles touch neither a root slot nor the control state *)
 Definition handle_op (o : op) : bool :=
   match o with
-  | OpChildSnap _ _ | OpStoreSnap | OpPrev _ _ _ _ _ | OpIterStart _ _ | OpIterSeek _
-  | OpCloseH _ | OpCollGet _ | OpIterStartO _ _ | OpIterSeekO _ => true
+  | OpChildSnap _ _ | OpStoreSnap | OpPrev _ _ _ _ _ | OpIterStart _ _ | OpIterSeek _ _
+  | OpCloseH _ | OpCollGet _ | OpIterStart_pre_fix _ _ | OpIterSeek_pre_fix _ => true
   | _ => false
   end.
 Lemma handle_op_frame o : handle_op o = true -> sat (Rfr (fun _ => false)) (step o).
@@ -1276,61 +1277,117 @@ Proof.
 Qed.
 
 (* ------------------------------------------------------------------ *)
-(* what the CURRENT code does not guarantee: witnesses *)
+(* the CURRENT code (repairs 75e1b64, 8951c44, 1882285): no operation loses a
+   reference, so closing everything releases everything, unconditionally *)
+
+Lemma current_no_ll_error o : current_code o = true -> no_ll_error o = true.
+Proof. intros H. destruct o; try reflexivity; discriminate H. Qed.
+Lemma forallb_current_no_ll_error ops :
+  forallb current_code ops = true -> forallb no_ll_error ops = true.
+Proof.
+  induction ops as [|o r IH]; simpl; auto. intros H. apply andb_prop in H. destruct H as [H1 H2].
+  rewrite (current_no_ll_error o H1), (IH H2). reflexivity.
+Qed.
+
+Theorem no_leak_in_current_code : forall ops st,
+  forallb current_code ops = true -> run ops = Some st -> leaked st = [].
+Proof.
+  intros ops st F H. eapply no_leak_without_error_return; eauto.
+  apply forallb_current_no_ll_error. exact F.
+Qed.
+
+Theorem all_closed_all_released_current_code : forall ops st,
+  forallb current_code ops = true -> run ops = Some st -> all_closed st ->
+  (forall o, cnt_of (hp st) o = 0) /\ open_fds st = [] /\ mappings st = 0.
+Proof.
+  intros ops st F H AC. eapply all_closed_all_released_no_error; eauto.
+  apply forallb_current_no_ll_error. exact F.
+Qed.
+
+(* a heap iterator owns a counted reference on the stack it was started on
+   (repair 75e1b64): the stack, its lower-level snapshot and everything below
+   stay alive as long as the iterator is open, whatever is closed meanwhile *)
+Theorem iterator_stack_alive : forall ops st, run ops = Some st ->
+  forall s ll c, In (HIter (Some s) ll c) (handles st) ->
+    cnt_of (hp st) s > 0 /\ forall o, reach (hp st) s o -> cnt_of (hp st) o > 0.
+Proof.
+  intros ops st H s ll c Hin. split.
+  - apply (handle_data_alive ops st H (HIter (Some s) ll c) s s Hin); [left; reflexivity|constructor].
+  - intros o R. apply (handle_data_alive ops st H (HIter (Some s) ll c) s o Hin); [left; reflexivity|exact R].
+Qed.
 
 Definition round (nc : bool) (m : pmode) (cache : bool) : list op :=
   [OpBatch nc; OpMergerIngest; OpMergerSwap BrMerged; OpMergerHandover;
    OpPersistBegin; OpPersistRun m; OpPersistPublish cache].
 
-(* R1. An iterator started on a collection snapshot keeps only a BORROWED
-   pointer to the snapshot's segmentStack (iterator.ss, iterator.go:116): it
-   takes no reference.  Once the snapshot handle is closed and the cached copy
-   invalidated (any batch, merger cycle or persistence round), the stack is
-   released while the open iterator still points to it. *)
+(* the history that broke the pre-repair iterator (R1 below): the snapshot is
+   closed before its iterator and the cached copy invalidated; SeekTo then
+   re-creates the cursors and keeps the lower-level cursor *)
 Definition w_iter : list op :=
   round false (PAppend false 1 0) false ++
-  [OpBatch false; OpSnapFresh; OpIterStart 0 IKHeap; OpCloseH 0; OpBatch false].
+  [OpBatch false; OpSnapFresh; OpIterStart 0 IKHeap; OpCloseH 0; OpBatch false; OpIterSeek 0 SKLower].
+Example iterator_keeps_lower_level :
+  forallb current_code w_iter = true /\
+  option_map (fun st => (handles st, borrow_safe_b st)) (run w_iter)
+  = Some ([HIter (Some 10) (Some 7) None], true).
+Proof. vm_compute. split; reflexivity. Qed.
 
-Theorem iterator_borrow_safe_refuted :
+(* ------------------------------------------------------------------ *)
+(* what the code did NOT guarantee before the repairs (operations ..._pre_fix),
+   and what the current code still does not (R2b) : witnesses *)
+
+(* R1 (before 75e1b64). An iterator started on a collection snapshot kept only
+   a BORROWED pointer to the snapshot's segmentStack (iterator.ss): it took no
+   reference.  Once the snapshot handle is closed and the cached copy
+   invalidated (any batch, merger cycle or persistence round), the stack is
+   released while the open iterator still points to it. *)
+Definition w_iter_pre_fix : list op :=
+  round false (PAppend false 1 0) false ++
+  [OpBatch false; OpSnapFresh; OpIterStart_pre_fix 0 IKHeap; OpCloseH 0; OpBatch false].
+
+Theorem iterator_borrow_safe_refuted_pre_fix :
   exists ops st, forallb no_ll_error ops = true /\ run ops = Some st /\ ~ borrow_safe st.
 Proof.
-  exists w_iter. destruct (run w_iter) as [st|] eqn:E; [|vm_compute in E; discriminate].
+  exists w_iter_pre_fix. destruct (run w_iter_pre_fix) as [st|] eqn:E; [|vm_compute in E; discriminate].
   exists st. split; [reflexivity|]. split; [reflexivity|].
   intros B. assert (X : borrow_safe_b st = true).
   { unfold borrow_safe_b. apply forallb_forall. intros o Hin. apply Nat.ltb_lt. apply B. exact Hin. }
   revert X. vm_compute in E. inversion E; subst. vm_compute. discriminate.
 Qed.
 
-(* ... and what the code then does through that pointer: SeekTo restarting
-   (iterator.go:338) re-creates the cursors from iter.ss, whose
-   lowerLevelSnapshot was set to nil by the release (segment_stack.go:55-58):
-   the iterator silently loses its lower-level cursor although the store
-   footer it was reading is still alive and current. *)
-Theorem iterator_keeps_lower_level_refuted :
+(* ... and what the code then did through that pointer: SeekTo restarting
+   re-creates the cursors from iter.ss, whose lowerLevelSnapshot was set to nil
+   by the release (segment_stack.go:55-58): the iterator silently lost its
+   lower-level cursor although the store footer it was reading is still alive
+   and current. *)
+Theorem iterator_keeps_lower_level_refuted_pre_fix :
   exists ops st st' s f,
-    run ops = Some st /\ nth_error (handles st) 0 = Some (HIter (Some s) (Some f) None) /\
-    run (ops ++ [OpIterSeek 0]) = Some st' /\
-    nth_error (handles st') 0 = Some (HIter (Some s) None None) /\
+    run ops = Some st /\ nth_error (handles st) 0 = Some (HIter_pre_fix (Some s) (Some f) None) /\
+    run (ops ++ [OpIterSeek_pre_fix 0]) = Some st' /\
+    nth_error (handles st') 0 = Some (HIter_pre_fix (Some s) None None) /\
     regs st' SFooter = Some f /\ cnt_of (hp st') f > 0.
 Proof.
-  exists w_iter.
-  destruct (run w_iter) as [st|] eqn:E; [|vm_compute in E; discriminate].
-  destruct (run (w_iter ++ [OpIterSeek 0])) as [st'|] eqn:E'; [|vm_compute in E'; discriminate].
+  exists w_iter_pre_fix.
+  destruct (run w_iter_pre_fix) as [st|] eqn:E; [|vm_compute in E; discriminate].
+  destruct (run (w_iter_pre_fix ++ [OpIterSeek_pre_fix 0])) as [st'|] eqn:E'; [|vm_compute in E'; discriminate].
   exists st, st', 10, 7. vm_compute in E. inversion E; subst. vm_compute in E'. inversion E'; subst.
   repeat split; vm_compute; lia.
 Qed.
 
-(* R2. "Only the current data file remains" fails: the store finds the file to
-   unlink (compactMaybe, store_compact.go:77-90) and the file to append to
-   through slocs[0].mref.fref of the TOP-LEVEL footer only.
-   (a) data only in child collections, appended; then a full compaction: the
-       old file is never registered for removal. *)
+(* R2. "Only the current data file remains" fails.
+   (a) (before 1882285) data only in child collections, appended; then a full
+       compaction: compactMaybe looked for the file to unlink through
+       slocs[0].mref.fref of the TOP-LEVEL footer only, so the old file was
+       never registered for removal. *)
+Definition w_files_a_pre_fix : list op :=
+  round true (PAppend false 0 1) false ++ round false PCompactFull_pre_fix false ++
+  [OpCollClose; OpStoreClose].
 Definition w_files_a : list op :=
   round true (PAppend false 0 1) false ++ round false PCompactFull false ++
   [OpCollClose; OpStoreClose].
-(* (b) the only child collection holding data is dropped: the new footer has no
-       segment at all, the file is closed and forgotten, the next round starts
-       a new file. *)
+(* (b) (CURRENT code, known finding F31) the only child collection holding data
+       is dropped: the new footer has no segment at all, the file is closed
+       and forgotten, the next round starts a new file. *)
 Definition w_files_b : list op :=
   round true (PAppend false 0 1) false ++
   [OpDropChildren; OpMergerIngest; OpMergerSwap BrMerged; OpMergerHandover;
@@ -1340,37 +1397,57 @@ Definition w_files_b : list op :=
 Definition stale_file (st : state) : Prop :=
   exists f, In f (files st) /\ cur (ct st) <> Some f.
 
-Theorem only_current_file_refuted :
-  (exists st, forallb no_ll_error w_files_a = true /\ run w_files_a = Some st /\
-              all_closed st /\ stale_file st) /\
-  (exists st, forallb no_ll_error w_files_b = true /\ run w_files_b = Some st /\
-              all_closed st /\ stale_file st).
+Theorem only_current_file_refuted_pre_fix :
+  exists st, forallb no_ll_error w_files_a_pre_fix = true /\ run w_files_a_pre_fix = Some st /\
+             all_closed st /\ stale_file st.
 Proof.
-  split.
-  - destruct (run w_files_a) as [st|] eqn:E; [|vm_compute in E; discriminate].
-    exists st. vm_compute in E. inversion E; subst.
-    repeat split; try reflexivity. exists 1. split; [vm_compute; auto|vm_compute; discriminate].
-  - destruct (run w_files_b) as [st|] eqn:E; [|vm_compute in E; discriminate].
-    exists st. vm_compute in E. inversion E; subst.
-    repeat split; try reflexivity. exists 1. split; [vm_compute; auto|vm_compute; discriminate].
+  destruct (run w_files_a_pre_fix) as [st|] eqn:E; [|vm_compute in E; discriminate].
+  exists st. vm_compute in E. inversion E; subst.
+  repeat split; try reflexivity. exists 1. split; [vm_compute; auto|vm_compute; discriminate].
 Qed.
 
-(* R3. The error return of segmentStack.startIterator (iterator.go:173-176,
-   lowerLevelIter.Current() failing, e.g. a merge operator that fails) drops
+(* the same history on the current code leaves the current file only *)
+Example only_current_file_witness_a_current_code :
+  forallb current_code w_files_a = true /\
+  option_map (fun st => (files st, cur (ct st), all_closed_b st)) (run w_files_a)
+  = Some ([2], Some 2, true).
+Proof. vm_compute. split; reflexivity. Qed.
+
+(* NOT repaired: a refutation of the current code *)
+Theorem only_current_file_refuted :
+  exists st, forallb current_code w_files_b = true /\ run w_files_b = Some st /\
+             all_closed st /\ stale_file st.
+Proof.
+  destruct (run w_files_b) as [st|] eqn:E; [|vm_compute in E; discriminate].
+  exists st. vm_compute in E. inversion E; subst.
+  repeat split; try reflexivity. exists 1. split; [vm_compute; auto|vm_compute; discriminate].
+Qed.
+
+(* R3 (before 8951c44). The error return of segmentStack.startIterator
+   (lowerLevelIter.Current() failing, e.g. a merge operator that fails) dropped
    the lower-level iterator without Close(): its closer, one reference on the
-   store footer, is never released. *)
+   store footer, was never released. *)
+Definition w_leak_pre_fix : list op :=
+  round false (PAppend false 1 0) false ++
+  [OpSnapFresh; OpIterStart_pre_fix 0 IKLLError; OpCloseH 0; OpCollClose; OpStoreClose].
 Definition w_leak : list op :=
   round false (PAppend false 1 0) false ++
   [OpSnapFresh; OpIterStart 0 IKLLError; OpCloseH 0; OpCollClose; OpStoreClose].
 
-Theorem all_released_with_error_return_refuted :
-  exists st o, run w_leak = Some st /\ all_closed st /\
+Theorem all_released_with_error_return_refuted_pre_fix :
+  exists st o, run w_leak_pre_fix = Some st /\ all_closed st /\
                cnt_of (hp st) o > 0 /\ open_fds st <> [] /\ mappings st > 0.
 Proof.
-  destruct (run w_leak) as [st|] eqn:E; [|vm_compute in E; discriminate].
+  destruct (run w_leak_pre_fix) as [st|] eqn:E; [|vm_compute in E; discriminate].
   exists st, 7. vm_compute in E. inversion E; subst.
   repeat split; try reflexivity; vm_compute; try lia; discriminate.
 Qed.
+
+Example all_released_with_error_return_current_code :
+  forallb current_code w_leak = true /\
+  option_map (fun st => (all_closed_b st, leaked st, open_fds st, mappings st)) (run w_leak)
+  = Some (true, [], [], 0).
+Proof. vm_compute. split; reflexivity. Qed.
 
 (* ------------------------------------------------------------------ *)
 (* the persister's borrowed stackDirtyBase (persister.go:62) is safe: while
@@ -1453,7 +1530,7 @@ Proof.
         [assert (F : Rp true st s1);
          [revert E; generalize st s1;
           match goal with |- forall a b, ?m a = Some b -> _ => change (sat (Rp true) m) end;
-          unfold start_or_reuse, newfile; sat_go (Rp_ok true) rp_prim|]
+          unfold compact_full, start_or_reuse, newfile; sat_go (Rp_ok true) rp_prim|]
         | discriminate] end.
       unfold set_ctl in H. simpl in H. apply finish_same in H. subst st'.
       destruct F as [F1 [F2 F3]]. destruct P2 as [E1 E2]; [lia|].
@@ -1503,29 +1580,11 @@ Proof.
 Qed.
 
 (* ------------------------------------------------------------------ *)
-(* the proposed repair (NOT the current code; operations OpIterStartO /
-   OpIterSeekO): an iterator that owns a counted reference on its stack keeps
-   the stack, its lower-level snapshot and everything below alive, and the
-   history that breaks the current iterator keeps the lower-level cursor *)
-Theorem repaired_iterator_stack_alive : forall ops st, run ops = Some st ->
-  forall s ll c, In (HIterO s ll c) (handles st) ->
-    cnt_of (hp st) s > 0 /\ forall o, reach (hp st) s o -> cnt_of (hp st) o > 0.
-Proof.
-  intros ops st H s ll c Hin. split.
-  - apply (handle_data_alive ops st H (HIterO s ll c) s s Hin); [left; reflexivity|constructor].
-  - intros o R. apply (handle_data_alive ops st H (HIterO s ll c) s o Hin); [left; reflexivity|exact R].
-Qed.
-
-Definition w_iter_repaired : list op :=
-  round false (PAppend false 1 0) false ++
-  [OpBatch false; OpSnapFresh; OpIterStartO 0 IKHeap; OpCloseH 0; OpBatch false; OpIterSeekO 0].
-Example repaired_iterator_keeps_lower_level :
-  option_map (fun st => (handles st, borrow_safe_b st)) (run w_iter_repaired)
-  = Some ([HIterO 10 (Some 7) None], true).
-Proof. vm_compute. reflexivity. Qed.
-
-(* ------------------------------------------------------------------ *)
-(* the model against the implementation: the reference-count events recorded
+(* the model against the implementation, STATIC part (the live tie is the
+   director family "owners" with ocaml/ownersrun.ml over OwnersScenarios.v).
+   These five traces were recorded BEFORE repairs 75e1b64 / 8951c44 / 1882285:
+   scenario3 and scenario5, whose iterators hold a stack, use the ..._pre_fix
+   operations; the others do not touch repaired code.  The reference-count events recorded
    from the real code (hook verifRef of /repo/verif_on.go, kind and count after
    each change, in order) for four scripted scenarios are, event for event,
    the events the model produces for the corresponding operation sequences *)
@@ -1590,7 +1649,7 @@ Proof. vm_compute. reflexivity. Qed.
 Definition scenario3 : list op :=
   round false (PAppend true 1 0) true ++ round false (PAppend true 1 0) true ++
   round false (PAppend true 1 0) true ++ round false (PCompactPartial 1) true ++
-  [OpSnapFresh; OpIterStart 0 IKHeap; OpIterSeek 1; OpCloseH 0; OpCloseH 0;
+  [OpSnapFresh; OpIterStart_pre_fix 0 IKHeap; OpIterSeek_pre_fix 1; OpCloseH 0; OpCloseH 0;
    OpCollClose; OpStoreClose].
 Definition recorded3 : list (kind * nat) :=
   [
@@ -1659,7 +1718,7 @@ Proof. vm_compute. reflexivity. Qed.
 Definition scenario5 : list op :=
   round false (PAppend false 1 0) false ++ round false (PAppend false 1 0) false ++
   [OpStoreSnap; OpPrev 0 true 1 0 0; OpPrev 1 false 0 0 0; OpCollGet true; OpSnapFresh;
-   OpIterStart 2 IKSkipLL; OpIterStart 2 IKLLDone;
+   OpIterStart_pre_fix 2 IKSkipLL; OpIterStart_pre_fix 2 IKLLDone;
    OpMergerIngest; OpMergerSwap BrEmpty; OpMergerHandover; OpPersistBegin;
    OpPersistRun (PAppend false 0 0); OpPersistPublish false;
    OpCloseH 4; OpCloseH 3; OpCloseH 2; OpCloseH 1; OpCloseH 0; OpCollClose; OpStoreClose].
@@ -1699,7 +1758,7 @@ Definition alphabet : list op :=
    OpStoreSnap; OpPrev 0 true 1 1 1; OpPrev 1 true 2 0 0; OpPrev 2 false 0 0 0;
    OpIterStart 0 IKHeap; OpIterStart 0 IKLower; OpIterStart 1 IKSkipLL; OpIterStart 1 IKLLDone;
    OpIterStart 0 IKLLError; OpIterStart 2 IKHeap;
-   OpIterSeek 0; OpIterSeek 1; OpIterSeek 2; OpIterSeek 3;
+   OpIterSeek 0 SKLower; OpIterSeek 1 SKLower; OpIterSeek 2 SKSkipLL; OpIterSeek 3 SKLLDone;
    OpCloseH 0; OpCloseH 1; OpCloseH 2;
    OpBatch false; OpBatch true; OpDropChildren;
    OpMergerIngest; OpMergerSwap BrMerged; OpMergerSwap BrEmpty; OpMergerSwap BrError;
@@ -1768,7 +1827,7 @@ Definition alphabet_top : list op :=
    OpStoreSnap; OpPrev 0 true 1 1 1; OpPrev 1 true 2 0 0; OpPrev 2 false 0 0 0;
    OpIterStart 0 IKHeap; OpIterStart 0 IKLower; OpIterStart 1 IKSkipLL; OpIterStart 1 IKLLDone;
    OpIterStart 2 IKHeap;
-   OpIterSeek 0; OpIterSeek 1; OpIterSeek 2; OpIterSeek 3;
+   OpIterSeek 0 SKLower; OpIterSeek 1 SKLower; OpIterSeek 2 SKSkipLL; OpIterSeek 3 SKLLDone;
    OpCloseH 0; OpCloseH 1; OpCloseH 2;
    OpBatch false; OpBatch true; OpDropChildren;
    OpMergerIngest; OpMergerSwap BrMerged; OpMergerSwap BrEmpty; OpMergerSwap BrError;
@@ -1812,11 +1871,17 @@ Print Assumptions all_closed_all_released.
 Print Assumptions all_closed_all_released_no_error.
 Print Assumptions no_leak_without_error_return.
 Print Assumptions persister_borrow_safe.
-Print Assumptions iterator_borrow_safe_refuted.
-Print Assumptions iterator_keeps_lower_level_refuted.
+Print Assumptions no_leak_in_current_code.
+Print Assumptions all_closed_all_released_current_code.
+Print Assumptions iterator_stack_alive.
+Print Assumptions iterator_keeps_lower_level.
+Print Assumptions iterator_borrow_safe_refuted_pre_fix.
+Print Assumptions iterator_keeps_lower_level_refuted_pre_fix.
+Print Assumptions only_current_file_refuted_pre_fix.
+Print Assumptions only_current_file_witness_a_current_code.
 Print Assumptions only_current_file_refuted.
-Print Assumptions all_released_with_error_return_refuted.
-Print Assumptions repaired_iterator_stack_alive.
+Print Assumptions all_released_with_error_return_refuted_pre_fix.
+Print Assumptions all_released_with_error_return_current_code.
 Print Assumptions model_matches_recorded_trace1.
 Print Assumptions model_matches_recorded_trace2.
 Print Assumptions model_matches_recorded_trace3.
